@@ -2057,7 +2057,6 @@ func getFunc(n *node) {
 
 	n.exec = func(f *frame) bltn {
 		fr := f.clone()
-		o := getFrame(f, l).data[i]
 
 		fct := reflect.MakeFunc(n.typ.TypeOf(), func(in []reflect.Value) []reflect.Value {
 			// Allocate and init local frame. All values to be settable and addressable.
@@ -2087,10 +2086,6 @@ func getFunc(n *node) {
 
 			// Interpreter code execution.
 			runCfg(n.child[3].start, fr2, n, n)
-
-			f.mutex.Lock()
-			getFrame(f, l).data[i] = o
-			f.mutex.Unlock()
 
 			return fr2.data[:numRet]
 		})
